@@ -409,7 +409,7 @@ Proof.
 Qed.
 
 Lemma print_rest_enc : forall r, Forall arc_ok r ->
-  print_rest (enc r) 0 = concat (map (cons DOT) (map dec r)).
+  print_rest (enc r) 0 = Ok (concat (map (cons DOT) (map dec r))).
 Proof.
   induction r as [|a r IH]; intros Hok; [reflexivity|].
   inversion Hok as [|? ? Ha Hr]; subst. unfold arc_ok in Ha.
@@ -424,7 +424,7 @@ Proof.
   rewrite oid_content_valid by lia. unfold text_of_oid, canonical_text.
   replace ((40 * a + b) / 40) with a by lia.
   replace ((40 * a + b) mod 40) with b by lia.
-  rewrite (print_rest_enc _ Hr). cbn [map]. rewrite join_dot_cons2, join_dot_concat.
+  rewrite (print_rest_enc _ Hr). cbn [bind map]. rewrite join_dot_cons2, join_dot_concat.
   reflexivity.
 Qed.
 
